@@ -1313,6 +1313,32 @@ def script_clone(g, n, prop, out):
     return steps
 
 
+def script_structures(g, n, prop, out):
+    """every IR of the shared structure space (all containment shapes up to 9
+    nodes x 4 decorations, the deviation, large and coincidence cases), as
+    built through the API and as loaded from its file, under the whole-IR
+    oracle: chunk n of 16"""
+    from .. import ircases, irgen, oracle
+
+    steps = 0
+    cases = ircases.all_cases("quick")
+    for label, spec in cases[n::16]:
+        try:
+            x, _ = irgen.build_ir(spec, "topdown")
+            buf = io.BytesIO()
+            x.save_protobuf_file(buf)
+            y = g.IR.load_protobuf_file(io.BytesIO(buf.getvalue()))
+        except Exception:  # noqa  (judged by C01 / C02)
+            continue
+        for how, ir, other in (("built", x, y), ("loaded", y, x)):
+            steps += 1
+            for sig, d in oracle.check_ir(g, ir, props=(prop,),
+                                          others=[other]):
+                out.append((sig.replace("/clone:", "/structure-%s:" % how),
+                            "%s (%s): %s" % (label, how, d)))
+    return steps
+
+
 # ------------------------------------------------------------------ driver
 def plan(prop, tier):
     """(script name, [n ...]) for the property"""
@@ -1338,6 +1364,8 @@ def plan(prop, tier):
     if prop in ("C03", "C04", "C05", "C06", "C10", "C11", "C12", "C13", "C18",
                 "C19"):
         out = out + [("clone", [9, 17])]
+    if prop in ("C03", "C04", "C05", "C06", "C10", "C11", "C13"):
+        out = out + [("structures", list(range(16)))]
     return out
 
 
@@ -1366,6 +1394,8 @@ def run_script(name, n, prop):
         steps = script_bytes(g, n, out)
     elif name == "bigfile":
         steps = script_bigfile(g, n, out)
+    elif name == "structures":
+        steps = script_structures(g, n, prop, out)
     elif name == "addrspace":
         steps = script_addrspace(g, n, out)
     elif name == "clone":
